@@ -203,6 +203,37 @@ Fixpoint ieval (e : expr) (fr : frame) (g : glob) {struct e} : res eout :=
       | Res (EV _) fr g => Res (EX (VErr "not callable")) fr g
       | r => r
       end
+  | EProp e =>
+      match ieval e fr g with
+      | Res (EV v) fr g =>
+          match obj_id v with
+          | Some i => Res (EV (hget i (gheap g))) fr g
+          | None => Res (EX (VErr "property of a non-object")) fr g
+          end
+      | r => r
+      end
+  | ESetProp e w =>                                   (* the value first, then the object (BinaryAssign) *)
+      match ieval w fr g with
+      | Res (EV wv) fr g =>
+          match ieval e fr g with
+          | Res (EV v) fr g =>
+              match obj_id v with
+              | Some i => Res (EV wv) fr (set_prop i wv g)
+              | None => Res (EX (VErr "property of a non-object")) fr g
+              end
+          | r => r
+          end
+      | r => r
+      end
+  | EHi e =>
+      match ieval e fr g with
+      | Res (EV v) fr g =>
+          match obj_id v with
+          | Some i => Res (EV (VStr ("hi" ++ to_str (hget i (gheap g))))) fr g
+          | None => Res (EX (VErr "method call on a non-object")) fr g
+          end
+      | r => r
+      end
   | EMatch s m =>                                     (* MatchStatement.GetValue *)
       match ieval s fr g with
       | Res (EV v) fr g => ieval_arms v m fr g
@@ -572,6 +603,9 @@ Fixpoint iexec (n : nat) (fn : string) (s : stmt) (fr : frame) (g : glob) {struc
                 end
             end
         end
+    | SIfInst x T t e =>                                          (* IfStatement over InstanceOfExpression *)
+        if (match rd fn x fr g with VObj _ _ _ => cm T (rd fn x fr g) | _ => false end)
+        then iexec n' fn t fr g else iexec n' fn e fr g
     | SThrow e =>                                                 (* ThrowStatement.GetValue *)
         match ev e fr g with
         | Res (EV v) fr g => Res (IThrow (thrown_of v)) fr g
